@@ -27,7 +27,7 @@ cd $WT
 if ! git apply $SRC/patch.diff; then echo "PATCH DOES NOT APPLY" >> $RES; git -C /repo worktree remove --force $WT; exit 2; fi
 # (1) suite with mutant (without demo)
 cargo test --workspace --no-fail-fast --offline > /tmp/seedchk/${PID}_$K.suite.log 2>&1
-FAILED=$(grep -E "^test .* FAILED" /tmp/seedchk/${PID}_$K.suite.log | grep -v write_buffer_size | grep -c FAILED)
+FAILED=$(grep -E "^test [^ ]+ (- [^.]* )?\.\.\. FAILED" /tmp/seedchk/${PID}_$K.suite.log | grep -v write_buffer_size | grep -c FAILED)
 echo "suite_with_mutant_failed_tests=$FAILED" >> $RES
 grep -E "^test .* FAILED" /tmp/seedchk/${PID}_$K.suite.log >> $RES
 # (2) demo with mutant
